@@ -36,6 +36,9 @@ TRUSTED = {
            'char boundaries inside the word; a WordSeparator::Custom function returns words that tile the line, with spaces-only whitespace, no penalty and cached widths equal to their display widths (their authors\' obligations; the properties quantify over the built-in separators)',
     'R16': 'R16 closure conversion: the body of an `iter::from_fn(move || …)` closure is verified as the `next` method of a struct holding the captured variables '
            '(same tokens, captures prefixed by `self.`); that `collect()` calls `next` until None and keeps the items in order is std behaviour (A4)',
+    'A16': 'A16 IEEE-754 binary64 is exact on small integers (used only for C05\'s "the slow path does what the shortcut does" under first-fit): for usize a, b with a + b < 2^53, '
+           'u2f(a) + u2f(b) == u2f(a + b); the conversion usize -> f64 is monotone (a <= b implies not u2f(a) > u2f(b)); u2f(0) == 0.0; and the target is 64-bit (every integer below '
+           '2^53 is a usize). True of round-to-nearest doubles; stated as axioms in U17 because Verus has no float theory',
     'R17': 'R17 RefCell<Vec<usize>> is verified as a plain Vec behind &mut self (LineNumbers): every borrow()/borrow_mut() is a temporary that dies within its own '
            'statement and none overlaps another or the recursive call, so the dynamic borrow checks cannot fail',
     'R15': 'R15 generic parameters are verified at one instance: Opt = Options<\'a> (Into is the identity there), I = Vec<Word<\'a>>',
@@ -92,13 +95,19 @@ PROPS = {
                        'UAX #14 tables), unfill/refill and the thin public wrappers are covered by bounded exhaustive execution only.',
     },
     'C05': {
-        'units': ['U3', 'U11', 'U12'], 'level': 'other', 'kani': [K1, K1MIN], 'trusted': ['A2', 'A3', 'A4', 'A8', 'A9', 'A12', 'R15'],
-        'proved_part': 'Verus + Kani: display_width(t) <= t.len() for every text — the soundness lemma of the byte-length shortcut. U11: when wrap_single_line takes the shortcut it '
-                       'appends exactly one line, indent-free, equal to the paragraph with trailing spaces removed; for a text without the line ending that is wrap\'s whole result. '
-                       'U12: fill\'s shortcut returns exactly that line, so fill == wrap\'s lines joined on both sides of the shortcut (fill_slow_path\'s contract is proved in the same unit; U11\'s shortcut postcondition is restated there).',
-        'bounded_part': 'BEC: wrap_single_line == wrap_single_line_slow_path and fill == fill_slow_path (upstream cfg(fuzzing) entry points) for every text in scope and widths on '
-                        'both sides of the shortcut condition; "fits => exactly [indent ++ trimmed paragraph]".',
-        'explanation': 'Mixed: the lemma that makes the shortcut sound is proved; equality of the two code paths is relational over two calls and checked by bounded exhaustive enumeration.',
+        'units': ['U3', 'U11', 'U12', 'U17', 'U16', 'U14', 'U6'], 'level': 'other', 'kani': [K1, K1MIN], 'trusted': ['A2', 'A3', 'A4', 'A8', 'A9', 'A12', 'A16', 'R15', 'R16'],
+        'proved_part': 'Verus + Kani: display_width(t) <= t.len() for every text — the soundness lemma of the byte-length shortcut (U3, K1). U11: when wrap_single_line takes the shortcut it '
+                       'appends exactly one line, indent-free, borrowed, equal to the paragraph with trailing spaces removed; for a text without the line ending that is wrap\'s whole result. '
+                       'U11 again, for first-fit, the built-in splitters and widths up to 2^53: wrap_single_line_slow_path, ENTERED UNDER THE SHORTCUT\'S CONDITION (line.len() < width, no '
+                       'indent on this line), appends exactly one borrowed line, the paragraph without the spaces after its last word — i.e. taking or not taking the shortcut gives the same '
+                       'line. The chain: cached widths <= byte lengths (U3), so every word still fits the first line; built-in splitters cut directly after a hyphen and add no penalty (U16, '
+                       'U14), break_words adds none (U6); first-fit keeps words that all fit the first line on one line (U17 over U1\'s greedy rule, with A16: exact integer arithmetic of '
+                       'doubles below 2^53). U12: fill\'s shortcut returns exactly wrap\'s single line, so fill == wrap\'s lines joined on both sides of the shortcut.',
+        'bounded_part': 'BEC: the first sentence (a paragraph whose display width fits is returned as one line) for every separator, splitter and algorithm — it needs sums of display widths, '
+                        'which Verus cannot do over uninterpreted floats, and for optimal-fit the optimality of one line; wrap_single_line == wrap_single_line_slow_path and fill == '
+                        'fill_slow_path (upstream cfg(fuzzing) entry points) for every text in scope and widths on both sides of the shortcut condition, all option combinations.',
+        'explanation': 'Mixed: the soundness lemma, both shortcuts\' exact results, and — for first-fit with the built-in splitters — the agreement of slow path and shortcut are proved; '
+                       'the first sentence and the optimal-fit / custom-splitter cases of the second are checked by bounded exhaustive enumeration. Known finding KF5 lies in the first sentence.',
     },
     'C06': {
         'units': ['U1', 'U2', 'U17', 'U23'], 'level': 'proof', 'trusted': ['A1', 'A5', 'A6', 'A7', 'A11', 'A12', 'A14', 'A15', 'R17'],
